@@ -47,6 +47,30 @@ CHECKS = {
         note='Inputs are integers 0..255.',
         technique='Lean 4 proof (case analysis, induction over payload/list) over a hand model; differential correspondence',
         design='5 C06'),
+    'C09': dict(
+        text='Payload round trip proved for every checked, normalised meta message of all 17 types (bit-splitting of 16/24-bit '
+             'numbers, signed key byte over the whole 30-entry table, frame-rate table, power-of-two denominators up to 2**255, '
+             'text under latin1/ascii), FF-type-VLQ form, VLQ read-back and minimality for all naturals, acceptance of every documented '
+             'value and rejection classes; the tables are regenerated from the source and tied by decide. Correspondence exhaustive '
+             'over the finite attribute domains; KNOWN-FINDING F5 (smpte hours >= 32).',
+        note='Round trip is proved outside the known finding F5 (hours < 32) and for latin1/ascii text; UTF-8 and other charsets are C17.',
+        technique='Lean 4 proof (case analysis per meta type, omega, kernel decide over tables) over a hand model; exhaustive differential correspondence',
+        design='5 C09'),
+    'C12': dict(
+        text='Theorems for every list of tracks: the merged track holds a permutation of the non-end_of_track events at unchanged '
+             'absolute ticks, sorted by time, stable (track order then in-track order), exactly one end_of_track last, total duration = '
+             'max of the input durations. Correspondence: all track lists up to 3x3 over deltas {0,1}, random lists, three call routes.',
+        note='CPython list.sort stability is modelled by core List.mergeSort; "inputs unmodified" is checked by deep comparison only.',
+        technique='Lean 4 proof (induction, List.Perm/Pairwise/Sublist, mergeSort lemmas) over a hand model; differential correspondence',
+        design='5 C12'),
+    'C13': dict(
+        text='Theorem: for every prefix of every merged track the cumulative yielded time equals the exact tempo-map integral (integer '
+             'micro-ticks, no floats), length = last cumulative time, type 2 refuses both; play(): per-round and whole-run not-early and '
+             'exact-remaining-time (no drift) theorems on an integer clock; unit inverse exact. Correspondence compares the '
+             "implementation's floats with the model's exact rationals within a rounding tolerance, including play() on a fake clock.",
+        note='IEEE rounding is outside the theorems (tolerance comparison); time.sleep is replaced by the assumption "returns no earlier than requested".',
+        technique='Lean 4 proof (induction over the event list, omega) over a hand model in exact integer arithmetic; differential correspondence with float tolerance',
+        design='5 C13'),
 }
 
 PENDING = ['C02', 'C03', 'C04', 'C05', 'C06', 'C07', 'C08', 'C09', 'C10', 'C11', 'C12', 'C13', 'C14', 'C15',
